@@ -28,7 +28,8 @@
       would make an isolated task that runs like any other, so this clause is a convenience, not a
       protection against a defect.
   * `env.rowsOk` (each plan names a node at most once) is NOT needed and is not assumed.
-  * H2 is needed only for "no block raises", H4 only for "no silent hang", as for QueueProcessing.
+  * H2 was needed only for "no block raises" (F14: no longer — the `…_noH2` theorems; the
+    statements with H2 are kept verbatim), H4 only for "no silent hang", as for QueueProcessing.
 
   What is proved.
   (2) `C05_no_silent_hang_plan_simpy`: after some number of kernel steps the run has raised, or it is
@@ -37,7 +38,7 @@
       the ready pool: in a quiescent state every machine is available, and the block of the
       `allocate_tasks` process of any observation still queued starts a task
       (`C05_plan_allocTasks_progress_partial`).
-  (3) `C05_no_raise_plan_simpy`: under H1, H2 and `PlanOk` no block ever raises.  In particular
+  (3) `C05_no_raise_plan_simpy_noH2`: under H1 and `PlanOk` no block ever raises.  In particular
       * two workflows never propose the same available machine in one instant so that the second
         `allocate_task_to_cluster` raises RuntimeError: an allocation process runs its first block
         (URGENT) before any other `allocate_tasks` block of that instant, and finds its machine in the
@@ -91,6 +92,21 @@ theorem C05_no_silent_hang_plan_simpy (env : SimEnv) (s0 : Sys) (hw : Sys.WFConf
 
 /-! ### (3) no block raises, termination -/
 
+/-- F14 — H2 (`OneAdmission`) dropped, the repaired admission test makes it unnecessary.  **No block raises** (either plan-following algorithm; H1, `PlanOk`). -/
+theorem C05_no_raise_plan_simpy_noH2 (env : SimEnv) (s0 : Sys) (hw : Sys.WFConfig s0)
+    (hfe : Sys.Feasible s0)
+    (hb0 : s0.buf.hot.stored = [] ∧ s0.buf.hot.scheduled = [] ∧ s0.buf.hot.finished = [] ∧
+      s0.buf.cold.stored = [])
+    (hfull : s0.buf.size = [] ∧ s0.buf.hot.cur = s0.buf.hot.total ∧ s0.buf.cold.cur = s0.buf.cold.total)
+    (hct : s0.buf.cold.transfer = none) (hh0 : s0.halted = false)
+    (hH1 : Sys.NoTierCfg s0) (halg : s0.alg = .dynamic ∨ s0.alg = .greedy)
+    (hstat : s0.staticPlan = true) (htopo : ∀ o ∈ s0.obs, IsTopo o.wf) (hplan : PlanOk env s0) (n : Nat) :
+    (ilSimSteps env n (SimState.start s0)).st.crashed = none := by
+  have := live_noRaise_P (env := env) ⟨hw, hfe, hb0, hfull, hct, hH1, halg, hstat, htopo, hplan, hh0⟩ n
+  rw [simAt_eq_ilSimSteps] at this
+  exact this
+
+-- F14: H2 is no longer needed (`…_noH2` above); statement kept verbatim
 /-- **No block raises** (either plan-following algorithm; H1, H2, `PlanOk`). -/
 theorem C05_no_raise_plan_simpy (env : SimEnv) (s0 : Sys) (hw : Sys.WFConfig s0)
     (hfe : Sys.Feasible s0)
@@ -101,10 +117,28 @@ theorem C05_no_raise_plan_simpy (env : SimEnv) (s0 : Sys) (hw : Sys.WFConfig s0)
     (hH1 : Sys.NoTierCfg s0) (hH2 : Sys.OneAdmission s0) (halg : s0.alg = .dynamic ∨ s0.alg = .greedy)
     (hstat : s0.staticPlan = true) (htopo : ∀ o ∈ s0.obs, IsTopo o.wf) (hplan : PlanOk env s0) (n : Nat) :
     (ilSimSteps env n (SimState.start s0)).st.crashed = none := by
-  have := live_noRaise_P (env := env) ⟨hw, hfe, hb0, hfull, hct, hH1, hH2, halg, hstat, htopo, hplan, hh0⟩ n
-  rw [simAt_eq_ilSimSteps] at this
-  exact this
+  have _ := hH2
+  exact C05_no_raise_plan_simpy_noH2 env s0 hw hfe hb0 hfull hct hh0 hH1 halg hstat htopo hplan n
 
+/-- F14 — H2 (`OneAdmission`) dropped, the repaired admission test makes it unnecessary.  **`C05_terminates_dynamic_simpy`** — THE TARGET for DynamicSchedulingFromPlan.  `WFConfig`,
+`Feasible`, initial buffers empty / full-free, `cold.transfer = none`, `halted = false`, H1, H4,
+static planning with plans that fit the configuration (`PlanOk`), any delay table / script in `env`:
+there is `n` such that the state after `n` kernel steps has `isFinished = true ∧ crashed = none`
+(and the run up to there is one uninterrupted `env.run`). -/
+theorem C05_terminates_dynamic_simpy_noH2 (env : SimEnv) (s0 : Sys) (hw : Sys.WFConfig s0)
+    (hfe : Sys.Feasible s0)
+    (hb0 : s0.buf.hot.stored = [] ∧ s0.buf.hot.scheduled = [] ∧ s0.buf.hot.finished = [] ∧
+      s0.buf.cold.stored = [])
+    (hfull : s0.buf.size = [] ∧ s0.buf.hot.cur = s0.buf.hot.total ∧ s0.buf.cold.cur = s0.buf.cold.total)
+    (hct : s0.buf.cold.transfer = none) (hh0 : s0.halted = false)
+    (hH1 : Sys.NoTierCfg s0) (halg : s0.alg = .dynamic)
+    (hstat : s0.staticPlan = true) (htopo : ∀ o ∈ s0.obs, IsTopo o.wf) (hplan : PlanOk env s0) :
+    ∃ n, (ilSimSteps env n (SimState.start s0)).st.isFinished = true ∧
+      (ilSimSteps env n (SimState.start s0)).st.crashed = none ∧
+      SimRun env s0 (ilSimSteps env n (SimState.start s0)) :=
+  live_terminates_cfg_P ⟨hw, hfe, hb0, hfull, hct, hH1, Or.inl halg, hstat, htopo, hplan, hh0⟩
+
+-- F14: H2 is no longer needed (`…_noH2` above); statement kept verbatim
 /-- **`C05_terminates_dynamic_simpy`** — THE TARGET for DynamicSchedulingFromPlan.  `WFConfig`,
 `Feasible`, initial buffers empty / full-free, `cold.transfer = none`, `halted = false`, H1, H2, H4,
 static planning with plans that fit the configuration (`PlanOk`), any delay table / script in `env`:
@@ -120,9 +154,26 @@ theorem C05_terminates_dynamic_simpy (env : SimEnv) (s0 : Sys) (hw : Sys.WFConfi
     (hstat : s0.staticPlan = true) (htopo : ∀ o ∈ s0.obs, IsTopo o.wf) (hplan : PlanOk env s0) :
     ∃ n, (ilSimSteps env n (SimState.start s0)).st.isFinished = true ∧
       (ilSimSteps env n (SimState.start s0)).st.crashed = none ∧
-      SimRun env s0 (ilSimSteps env n (SimState.start s0)) :=
-  live_terminates_cfg_P ⟨hw, hfe, hb0, hfull, hct, hH1, hH2, Or.inl halg, hstat, htopo, hplan, hh0⟩
+      SimRun env s0 (ilSimSteps env n (SimState.start s0)) := by
+  have _ := hH2
+  exact C05_terminates_dynamic_simpy_noH2 env s0 hw hfe hb0 hfull hct hh0 hH1 halg hstat htopo hplan
 
+/-- F14 — H2 (`OneAdmission`) dropped, the repaired admission test makes it unnecessary.  **`C05_terminates_greedy_simpy`** — THE TARGET for GreedySchedulingFromPlan (after the F10
+repair), same hypotheses. -/
+theorem C05_terminates_greedy_simpy_noH2 (env : SimEnv) (s0 : Sys) (hw : Sys.WFConfig s0)
+    (hfe : Sys.Feasible s0)
+    (hb0 : s0.buf.hot.stored = [] ∧ s0.buf.hot.scheduled = [] ∧ s0.buf.hot.finished = [] ∧
+      s0.buf.cold.stored = [])
+    (hfull : s0.buf.size = [] ∧ s0.buf.hot.cur = s0.buf.hot.total ∧ s0.buf.cold.cur = s0.buf.cold.total)
+    (hct : s0.buf.cold.transfer = none) (hh0 : s0.halted = false)
+    (hH1 : Sys.NoTierCfg s0) (halg : s0.alg = .greedy)
+    (hstat : s0.staticPlan = true) (htopo : ∀ o ∈ s0.obs, IsTopo o.wf) (hplan : PlanOk env s0) :
+    ∃ n, (ilSimSteps env n (SimState.start s0)).st.isFinished = true ∧
+      (ilSimSteps env n (SimState.start s0)).st.crashed = none ∧
+      SimRun env s0 (ilSimSteps env n (SimState.start s0)) :=
+  live_terminates_cfg_P ⟨hw, hfe, hb0, hfull, hct, hH1, Or.inr halg, hstat, htopo, hplan, hh0⟩
+
+-- F14: H2 is no longer needed (`…_noH2` above); statement kept verbatim
 /-- **`C05_terminates_greedy_simpy`** — THE TARGET for GreedySchedulingFromPlan (after the F10
 repair), same hypotheses. -/
 theorem C05_terminates_greedy_simpy (env : SimEnv) (s0 : Sys) (hw : Sys.WFConfig s0)
@@ -135,8 +186,9 @@ theorem C05_terminates_greedy_simpy (env : SimEnv) (s0 : Sys) (hw : Sys.WFConfig
     (hstat : s0.staticPlan = true) (htopo : ∀ o ∈ s0.obs, IsTopo o.wf) (hplan : PlanOk env s0) :
     ∃ n, (ilSimSteps env n (SimState.start s0)).st.isFinished = true ∧
       (ilSimSteps env n (SimState.start s0)).st.crashed = none ∧
-      SimRun env s0 (ilSimSteps env n (SimState.start s0)) :=
-  live_terminates_cfg_P ⟨hw, hfe, hb0, hfull, hct, hH1, hH2, Or.inr halg, hstat, htopo, hplan, hh0⟩
+      SimRun env s0 (ilSimSteps env n (SimState.start s0)) := by
+  have _ := hH2
+  exact C05_terminates_greedy_simpy_noH2 env s0 hw hfe hb0 hfull hct hh0 hH1 halg hstat htopo hplan
 
 /-! ### the raise sites that depend on the order inside an instant, and on the plan -/
 
@@ -268,6 +320,35 @@ theorem C05_plan_run_machines (s1 : Sys) (orc : Oracle) (plan : Plan) (pool : Li
 
 /-! ### no task is starved; a ready task whose planned machine is free is started at once -/
 
+/-- F14 — H2 (`OneAdmission`) dropped, the repaired admission test makes it unnecessary.  **Every task of every workflow runs to the end** (either plan-following algorithm, the hypotheses
+of the targets).  There is an index `N` at which no worker process is alive, the scheduler's queue is
+empty, every observation of the configuration has been removed from the hot buffer, and every node
+of its workflow has a FINISHED record.  In particular a task whose planned machine is busy — held by
+an ingest, by a task of its own workflow or by a task of another workflow planned on the same
+machine — waits only finitely long: no visiting order of the scheduler starves it. -/
+theorem C05_plan_every_task_finishes_simpy_noH2 (env : SimEnv) (s0 : Sys) (hw : Sys.WFConfig s0)
+    (hfe : Sys.Feasible s0)
+    (hb0 : s0.buf.hot.stored = [] ∧ s0.buf.hot.scheduled = [] ∧ s0.buf.hot.finished = [] ∧
+      s0.buf.cold.stored = [])
+    (hfull : s0.buf.size = [] ∧ s0.buf.hot.cur = s0.buf.hot.total ∧ s0.buf.cold.cur = s0.buf.cold.total)
+    (hct : s0.buf.cold.transfer = none) (hh0 : s0.halted = false)
+    (hH1 : Sys.NoTierCfg s0) (halg : s0.alg = .dynamic ∨ s0.alg = .greedy)
+    (hstat : s0.staticPlan = true) (htopo : ∀ o ∈ s0.obs, IsTopo o.wf) (hplan : PlanOk env s0) :
+    ∃ N, (ilSimSteps env N (SimState.start s0)).st.NoWorker ∧
+      (ilSimSteps env N (SimState.start s0)).st.queue = [] ∧
+      (ilSimSteps env N (SimState.start s0)).st.crashed = none ∧
+      ∀ ob ∈ s0.obs, ob.id ∈ (ilSimSteps env N (SimState.start s0)).st.buf.hot.finished ∧
+        ∀ node ∈ ob.wf.topo, ∃ c r,
+          (ilSimSteps env N (SimState.start s0)).st.task? (Tid.wf ob.id c node) = some r ∧
+          r.status = .finished := by
+  have N : NcPCfg env s0 := ⟨hw, hfe, hb0, hfull, hct, hH1, halg, hstat, htopo, hplan, hh0⟩
+  have C := N.toLive (live_noRaise_P N)
+  obtain ⟨n, h1, h2, h3⟩ := live_every_task_finished_P C hh0
+  refine ⟨n, ?_⟩
+  rw [← simAt_eq_ilSimSteps]
+  exact ⟨h1, h2, C.nr n, h3⟩
+
+-- F14: H2 is no longer needed (`…_noH2` above); statement kept verbatim
 /-- **Every task of every workflow runs to the end** (either plan-following algorithm, the hypotheses
 of the targets).  There is an index `N` at which no worker process is alive, the scheduler's queue is
 empty, every observation of the configuration has been removed from the hot buffer, and every node
@@ -289,12 +370,8 @@ theorem C05_plan_every_task_finishes_simpy (env : SimEnv) (s0 : Sys) (hw : Sys.W
         ∀ node ∈ ob.wf.topo, ∃ c r,
           (ilSimSteps env N (SimState.start s0)).st.task? (Tid.wf ob.id c node) = some r ∧
           r.status = .finished := by
-  have N : NcPCfg env s0 := ⟨hw, hfe, hb0, hfull, hct, hH1, hH2, halg, hstat, htopo, hplan, hh0⟩
-  have C := N.toLive (live_noRaise_P N)
-  obtain ⟨n, h1, h2, h3⟩ := live_every_task_finished_P C hh0
-  refine ⟨n, ?_⟩
-  rw [← simAt_eq_ilSimSteps]
-  exact ⟨h1, h2, C.nr n, h3⟩
+  have _ := hH2
+  exact C05_plan_every_task_finishes_simpy_noH2 env s0 hw hfe hb0 hfull hct hh0 hH1 halg hstat htopo hplan
 
 /-- **DynamicSchedulingFromPlan, along the run: a ready task whose planned machine is available is
 started in that block of `allocate_tasks`** — it, or a task of the same plan planned on the same
